@@ -887,3 +887,577 @@ Proof.
   destruct (reg_add_all_spec fixtures _ _ initial_registry_repr Hu) as [H|[Hall [reg [Hok [Hwf [Hfind _]]]]]]; [left; exact H|].
   right. split; [exact Hall|]. exists reg. auto.
 Qed.
+
+(* ================================================================ a validated registry *)
+Lemma last_named_name : forall l n fx, last_named l n = Some fx -> fx_name fx = n.
+Proof.
+  induction l as [|a l IH]; intros n fx; simpl; [discriminate|].
+  destruct (last_named l n) as [f|] eqn:E.
+  - intros H. inversion H. subst. exact (IH _ _ E).
+  - destruct (Nat.eqb n (fx_name a)) eqn:E2; [|discriminate]. intros H. inversion H. subst. apply Nat.eqb_eq in E2. auto.
+Qed.
+
+(* what the runner may rely on after PreparedProject.create *)
+Definition registry_ok (reg : registry) : Prop :=
+  reg_wf reg /\ (forall n fx, reg_find reg n = Some fx -> fx_name fx = n) /\ check_dependencies reg = Ok tt.
+
+Lemma registry_ok_deps : forall reg, registry_ok reg -> forall n fx, reg_find reg n = Some fx -> exists r, fixture_deps reg n = Ok r.
+Proof.
+  intros reg [_ [_ Hc]] n fx Hn. unfold check_dependencies in Hc.
+  destruct (name_mem n_fixture_name (reg_names reg)); [discriminate|].
+  destruct (for_each _ (reg_names reg)) as [[]|e1] eqn:H2; simpl in Hc; [|discriminate].
+  assert (Hk0 : In n (reg_names reg)) by (apply reg_find_names; exists fx; exact Hn).
+  pose proof (proj1 (for_each_ok _ _) H2 n Hk0) as Hk1. simpl in Hk1.
+  destruct (fixture_deps reg n) as [r|]; [exists r; reflexivity | discriminate].
+Qed.
+
+Lemma registry_ok_edge : forall reg, registry_ok reg -> forall a fa b, reg_find reg a = Some fa -> In b (fparams fa) ->
+  exists fb, reg_find reg b = Some fb /\ scope_level (fx_scope fa) <= scope_level (fx_scope fb).
+Proof.
+  intros reg Hok a fa b Ha Hb. destruct Hok as [Hwf [Hn Hc]].
+  pose proof (check_dependencies_complete _ Hc) as Hcomp.
+  destruct (reg_find reg b) as [fb|] eqn:Hfb.
+  - exists fb. split; [reflexivity|]. destruct (Nat.le_gt_cases (scope_level (fx_scope fa)) (scope_level (fx_scope fb))) as [H|H]; [exact H|].
+    exfalso. apply (Hcomp RFxScopeParam). simpl. exists a, fa, b, fb. auto.
+  - exfalso. apply (Hcomp RFxUnknownParam). simpl. exists a, b. split; [exists fa; auto | exact Hfb].
+Qed.
+
+(* scopes never decrease along dependencies *)
+Lemma registry_ok_reach_scope : forall reg, registry_ok reg -> forall a b, clos_refl_trans name (Edge (reg_find reg)) a b ->
+  forall fa, reg_find reg a = Some fa -> exists fb, reg_find reg b = Some fb /\ scope_level (fx_scope fa) <= scope_level (fx_scope fb).
+Proof.
+  intros reg Hok a b H. induction H as [a b [fx [H1 H2]]|a|a b c _ IH1 _ IH2]; intros fa Ha.
+  - rewrite H1 in Ha. inversion Ha. subst fx. exact (registry_ok_edge _ Hok _ _ _ H1 H2).
+  - exists fa. split; [exact Ha | lia].
+  - destruct (IH1 fa Ha) as [fb [Hb Hl1]]. destruct (IH2 fb Hb) as [fc [Hc Hl2]]. exists fc. split; [exact Hc | lia].
+Qed.
+
+(* ================================================================ scheduled_names *)
+Section ScheduledNames.
+  Variable reg : registry.
+  Variable D : name -> Prop.            (* the direct fixtures *)
+
+  Definition sched_inv (acc : list name) : Prop :=
+    dep_closed (reg_find reg) acc /\ NoDup acc /\
+    (forall x, In x acc -> exists f, D f /\ clos_refl_trans name (Edge (reg_find reg)) f x) /\
+    (forall x, In x acc -> reg_mem reg x = true).
+
+  Lemma scheduled_names_inv : forall direct acc L, scheduled_names reg direct acc = Ok L ->
+    sched_inv acc -> (forall f, In f direct -> D f) ->
+    sched_inv L /\ (forall x, In x acc -> In x L) /\ (forall f, In f direct -> In f L).
+  Proof.
+    induction direct as [|f direct IH]; intros acc L; simpl.
+    - intros H. inversion H. subst. intros Hacc _. split; [exact Hacc|]. split; [auto | intros f []].
+    - destruct (fixture_deps reg f) as [d|e] eqn:Hd; [|discriminate]. intros HL [Ha1 [Ha2 [Ha3 Ha4]]] HD.
+      unfold fixture_deps in Hd. destruct (gfd_ok_result _ _ _ _ _ Hd) as [Hd1 [Hd2 [Hd3 [Hd4 Hd5]]]].
+      assert (Hf : D f) by (apply HD; left; reflexivity).
+      assert (Hfm : reg_mem reg f = true).
+      { destruct (S (length reg)) eqn:E; [discriminate|]. destruct (gfd_ok_inv _ _ _ _ _ Hd) as [fx [_ [Hfx _]]].
+        apply reg_mem_true. exists fx. exact Hfx. }
+      assert (Hinv' : sched_inv (oset_add f (oset_update acc d))).
+      { repeat split.
+        - apply oset_add_closed.
+          + apply oset_update_closed; [exact Ha1|]. intros l1 x l2 Heq y Hxy. left. exact (Hd1 _ _ _ Heq y Hxy).
+          + intros y Hy. apply oset_update_In. right. exact (Hd3 y Hy).
+        - apply oset_add_NoDup. apply oset_update_NoDup. exact Ha2.
+        - intros x Hx. apply oset_add_In in Hx. destruct Hx as [Hx|Hx].
+          + apply oset_update_In in Hx. destruct Hx as [Hx|Hx]; [exact (Ha3 x Hx)|].
+            exists f. split; [exact Hf | apply clos_t_in_rt; exact (Hd4 x Hx)].
+          + subst x. exists f. split; [exact Hf | apply rt_refl].
+        - intros x Hx. apply oset_add_In in Hx. destruct Hx as [Hx|Hx]; [|subst x; exact Hfm].
+          apply oset_update_In in Hx. destruct Hx as [Hx|Hx]; [exact (Ha4 x Hx) | exact (Hd5 x Hx)]. }
+      destruct (IH _ _ HL Hinv' (fun g Hg => HD g (or_intror Hg))) as [HL1 [HL2 HL3]].
+      split; [exact HL1|]. split.
+      + intros x Hx. apply HL2. apply oset_add_In. left. apply oset_update_In. left. exact Hx.
+      + intros g [Hg|Hg]; [subst g; apply HL2; apply oset_add_In; right; reflexivity | exact (HL3 g Hg)].
+  Qed.
+
+  Lemma scheduled_names_total : forall direct acc, (forall f, In f direct -> exists d, fixture_deps reg f = Ok d) ->
+    exists L, scheduled_names reg direct acc = Ok L.
+  Proof.
+    induction direct as [|f direct IH]; intros acc H; simpl; [exists acc; reflexivity|].
+    destruct (H f (or_introl eq_refl)) as [d Hd]. rewrite Hd. apply IH. intros g Hg. apply H. right. exact Hg.
+  Qed.
+End ScheduledNames.
+
+Lemma sched_inv_nil : forall reg D, sched_inv reg D [].
+Proof. intros reg D. repeat split; [apply dep_closed_nil | constructor | intros x [] | intros x []]. Qed.
+
+(* closure: everything reachable from a direct fixture is in the list *)
+Lemma sched_closure : forall reg D L, sched_inv reg D L -> forall f y, In f L -> clos_refl_trans name (Edge (reg_find reg)) f y -> In y L.
+Proof.
+  intros reg D L [H1 _] f y Hf Hfy. induction Hfy as [a b Hab|a|a b c _ IH1 _ IH2]; auto.
+  exact (dep_closed_step _ _ _ _ H1 Hf Hab).
+Qed.
+
+(* ================================================================ select_scope *)
+Definition in_scope (reg : registry) (sc : scope) (n : name) : bool :=
+  match reg_find reg n with Some fx => scope_eqb (fx_scope fx) sc | None => false end.
+
+Lemma select_scope_spec : forall reg sc names, (forall n, In n names -> reg_mem reg n = true) ->
+  (forall n fx, reg_find reg n = Some fx -> fx_name fx = n) ->
+  exists fxs, select_scope reg sc names = Ok fxs /\ map fx_name fxs = filter (in_scope reg sc) names /\
+              forall fx, In fx fxs -> reg_find reg (fx_name fx) = Some fx /\ fx_scope fx = sc.
+Proof.
+  intros reg sc names. induction names as [|n names IH]; intros Hm Hn; simpl.
+  - exists []. split; [reflexivity|]. split; [reflexivity|]. intros fx [].
+  - assert (Hmn : reg_mem reg n = true) by (apply Hm; left; reflexivity).
+    apply reg_mem_true in Hmn. destruct Hmn as [fx Hfx]. rewrite Hfx.
+    destruct (IH (fun m Hm' => Hm m (or_intror Hm')) Hn) as [fxs [H1 [H2 H3]]]. rewrite H1.
+    unfold in_scope at 1. rewrite Hfx. destruct (scope_eqb (fx_scope fx) sc) eqn:E.
+    + exists (fx :: fxs). split; [reflexivity|]. split; [simpl; rewrite H2, (Hn _ _ Hfx); reflexivity|].
+      intros f0 [Hf|Hf]; [subst f0; rewrite (Hn _ _ Hfx); split; [exact Hfx | apply scope_eqb_eq; exact E] | exact (H3 f0 Hf)].
+    + exists fxs. auto.
+Qed.
+
+Lemma filter_split : forall {A} (g : A -> bool) l a x b, filter g l = a ++ x :: b ->
+  exists l1 l2, l = l1 ++ x :: l2 /\ filter g l1 = a /\ filter g l2 = b /\ g x = true.
+Proof.
+  intros A g. induction l as [|h l IH]; intros a x b; simpl.
+  - intros H. destruct a; discriminate.
+  - destruct (g h) eqn:E.
+    + destruct a as [|a0 a]; simpl; intros H; injection H as H1 H2.
+      * subst h. exists [], l. simpl. auto.
+      * subst a0. destruct (IH _ _ _ H2) as [l1 [l2 [H3 [H4 [H5 H6]]]]]. exists (h :: l1), l2. simpl. rewrite E, H4. rewrite H3. auto.
+    + intros H. destruct (IH _ _ _ H) as [l1 [l2 [H3 [H4 [H5 H6]]]]]. exists (h :: l1), l2. simpl. rewrite E. rewrite H3. auto.
+Qed.
+
+Lemma map_split : forall {A B} (f : A -> B) l a x b, map f l = a ++ x :: b ->
+  exists l1 y l2, l = l1 ++ y :: l2 /\ map f l1 = a /\ f y = x /\ map f l2 = b.
+Proof.
+  intros A B f. induction l as [|h l IH]; intros a x b; simpl.
+  - intros H. destruct a; discriminate.
+  - destruct a as [|a0 a]; simpl; intros H; injection H as H1 H2.
+    + exists [], h, l. auto.
+    + destruct (IH _ _ _ H2) as [l1 [y [l2 [H3 [H4 [H5 H6]]]]]]. exists (h :: l1), y, l2. simpl. rewrite H3, H4, H1. auto.
+Qed.
+
+(* ================================================================ ScheduledFixtures: lookups and setups *)
+Definition full_level (l : level name) : Prop := forall m, In m (sf_names l) -> results_find (snd l) m <> None.
+Definition full (c : chain name) : Prop := forall l, In l c -> full_level l.
+Definition chain_has (c : chain name) (y : name) : Prop := exists l, In l c /\ In y (sf_names l).
+
+Lemma get_fixture_result_full : forall (c : chain name) y, full c -> chain_has c y -> exists v, get_fixture_result c y = Ok v.
+Proof.
+  induction c as [|l ps IH]; intros y Hfull [l0 [Hl0 Hy]]; [destruct Hl0|]. simpl.
+  unfold sf_has_fixture. destruct (name_mem y (sf_names l)) eqn:E.
+  - apply name_mem_In in E. pose proof (Hfull l (or_introl eq_refl) y E) as Hr.
+    destruct (results_find (snd l) y) as [v|]; [exists v; reflexivity | congruence].
+  - apply name_mem_false in E. apply IH.
+    + intros l' Hl'. apply Hfull. right. exact Hl'.
+    + destruct Hl0 as [Hl0|Hl0]; [subst l0; contradiction | exists l0; auto].
+Qed.
+
+Lemma get_fixture_results_ok : forall (c : chain name) names, (forall y, In y names -> exists v, get_fixture_result c y = Ok v) ->
+  exists l, get_fixture_results c names = Ok l.
+Proof.
+  intros c names. induction names as [|n names IH]; intros H; simpl; [exists []; reflexivity|].
+  destruct (H n (or_introl eq_refl)) as [v Hv]. rewrite Hv.
+  destruct (IH (fun y Hy => H y (or_intror Hy))) as [l Hl]. rewrite Hl. exists ((n, v) :: l). reflexivity.
+Qed.
+
+Lemma params_loop_ok : forall (c : chain name) n params,
+  (forall p, In p params -> p <> n_fixture_name -> exists v, get_fixture_result c p = Ok v) ->
+  exists l, params_loop name c n params = Ok l.
+Proof.
+  intros c n params. induction params as [|p params IH]; intros H; simpl; [exists []; reflexivity|].
+  destruct (IH (fun q Hq => H q (or_intror Hq))) as [l Hl]. rewrite Hl.
+  destruct (Nat.eqb p n_fixture_name) eqn:E.
+  - exists ((p, PName n) :: l). reflexivity.
+  - apply Nat.eqb_neq in E. destruct (H p (or_introl eq_refl) E) as [v Hv]. rewrite Hv. exists ((p, PVal v) :: l). reflexivity.
+Qed.
+
+Lemma find_fixture_of_In : forall fxs fx, NoDup (map fx_name fxs) -> In fx fxs -> find_fixture fxs (fx_name fx) = Some fx.
+Proof.
+  induction fxs as [|a fxs IH]; intros fx Hnd; simpl; [intros []|].
+  inversion Hnd as [|? ? Hnot Hnd']. subst. intros [H|H].
+  - subst a. rewrite Nat.eqb_refl. reflexivity.
+  - destruct (Nat.eqb (fx_name fx) (fx_name a)) eqn:E.
+    + apply Nat.eqb_eq in E. exfalso. apply Hnot. rewrite <- E. apply in_map. exact H.
+    + apply IH; assumption.
+Qed.
+
+Lemma results_remove_find : forall (rs : list (name * name)) n m, m <> n -> results_find (results_remove name rs n) m = results_find rs m.
+Proof.
+  induction rs as [|[k v] rs IH]; intros n m Hmn; simpl; [reflexivity|].
+  destruct (Nat.eqb n k) eqn:E; simpl.
+  - apply Nat.eqb_eq in E. subst k. destruct (Nat.eqb m n) eqn:E2; [apply Nat.eqb_eq in E2; congruence | apply IH; exact Hmn].
+  - destruct (Nat.eqb m k); [reflexivity | apply IH; exact Hmn].
+Qed.
+
+Definition setup_step (acc : result (chain name)) (n : name) : result (chain name) :=
+  bind acc (fun c' => bind (setup_fixture_begin c' n) (fun _ => Ok (setup_fixture_end c' n n))).
+
+Lemma setup_all_unfold : forall l ps, setup_all (l :: ps) = fold_left setup_step (sf_names l) (Ok (l :: ps)).
+Proof. reflexivity. Qed.
+
+(* the parameters of every fixture of the level are set up earlier in the level, or live (with a result) in the parents *)
+Definition params_resolvable (fxs : list fixture) (parents : chain name) : Prop :=
+  forall d1 fx t1, fxs = d1 ++ fx :: t1 -> forall y, In y (fparams fx) ->
+    In y (map fx_name d1) \/ (~ In y (map fx_name fxs) /\ exists v, get_fixture_result parents y = Ok v).
+
+Lemma setup_loop_ok : forall todo done fxs rs parents,
+  map fx_name fxs = done ++ todo -> NoDup (done ++ todo) ->
+  (forall m, results_find rs m <> None <-> In m done) ->
+  params_resolvable fxs parents ->
+  exists rs', fold_left setup_step todo (Ok ((fxs, rs) :: parents)) = Ok ((fxs, rs') :: parents) /\
+              forall m, results_find rs' m <> None <-> In m (done ++ todo).
+Proof.
+  induction todo as [|n todo IH]; intros done fxs rs parents Hnames Hnd Hrs Hpr.
+  - exists rs. split; [reflexivity|]. rewrite app_nil_r. exact Hrs.
+  - destruct (map_split _ _ _ _ _ Hnames) as [d1 [fx [t1 [Hfxs [Hd1 [Hfn Ht1]]]]]].
+    assert (Hndn : NoDup (map fx_name fxs)) by (rewrite Hnames; exact Hnd).
+    assert (Hfind : find_fixture fxs n = Some fx).
+    { rewrite <- Hfn. apply find_fixture_of_In; [exact Hndn|]. rewrite Hfxs. apply in_or_app. right. left. reflexivity. }
+    assert (Hn_not_done : ~ In n done).
+    { intros Hin. apply NoDup_remove_2 in Hnd. apply Hnd. apply in_or_app. left. exact Hin. }
+    assert (Hrsn : results_find rs n = None).
+    { destruct (results_find rs n) eqn:E; [|reflexivity]. exfalso. apply Hn_not_done. apply Hrs. congruence. }
+    assert (Hparams : exists ps, params_loop name ((fxs, rs) :: parents) n (fx_params fx) = Ok ps).
+    { apply params_loop_ok. intros p Hp Hne.
+      assert (Hfp : In p (fparams fx)).
+      { unfold fparams. apply filter_In. split; [exact Hp|]. apply negb_true_iff. apply Nat.eqb_neq. exact Hne. }
+      simpl. unfold sf_has_fixture, sf_names. simpl.
+      destruct (Hpr _ _ _ Hfxs p Hfp) as [Hin|[Hnot [v Hv]]].
+      - rewrite Hd1 in Hin. assert (Hpn : In p (map fx_name fxs)) by (rewrite Hnames; apply in_or_app; left; exact Hin).
+        apply name_mem_In in Hpn. rewrite Hpn. apply Hrs in Hin. destruct (results_find rs p) as [v|]; [exists v; reflexivity | congruence].
+      - apply name_mem_false in Hnot. rewrite Hnot. exists v. exact Hv. }
+    destruct Hparams as [ps Hps].
+    cbn [fold_left]. unfold setup_step at 2. cbn [bind]. unfold setup_fixture_begin. cbn [snd fst].
+    rewrite Hrsn, Hfind. unfold get_fixture_params. cbn [fst]. rewrite Hfind, Hps. cbn [bind]. unfold setup_fixture_end. cbn [fst snd].
+    destruct (IH (done ++ [n]) fxs ((n, n) :: results_remove name rs n) parents) as [rs' [Hfold Hrs']].
+    + rewrite <- app_assoc. exact Hnames.
+    + rewrite <- app_assoc. exact Hnd.
+    + intros m. simpl. destruct (Nat.eqb m n) eqn:E.
+      * apply Nat.eqb_eq in E. subst m. split; [intros _; apply in_or_app; right; left; reflexivity | discriminate].
+      * apply Nat.eqb_neq in E. rewrite (results_remove_find _ _ _ E), Hrs, in_app_iff. simpl. split; [auto | intros [H|[H|[]]]; [exact H | congruence]].
+    + exact Hpr.
+    + exists rs'. split; [exact Hfold|]. intros m. rewrite Hrs'. rewrite <- app_assoc. reflexivity.
+Qed.
+
+Theorem setup_all_ok : forall fxs parents, NoDup (map fx_name fxs) -> params_resolvable fxs parents ->
+  exists rs, setup_all (new_level fxs :: parents) = Ok ((fxs, rs) :: parents) /\ full_level (fxs, rs).
+Proof.
+  intros fxs parents Hnd Hpr. rewrite setup_all_unfold. unfold new_level, sf_names. cbn [fst].
+  destruct (setup_loop_ok (map fx_name fxs) [] fxs [] parents eq_refl Hnd) as [rs [H1 H2]].
+  - intros m. simpl. split; [congruence | intros []].
+  - exact Hpr.
+  - exists rs. split; [exact H1|]. intros m Hm. apply H2. exact Hm.
+Qed.
+
+(* ================================================================ one level of the schedule *)
+Definition reach (reg : registry) (direct : list name) (y : name) : Prop :=
+  exists f, In f direct /\ clos_refl_trans name (Edge (reg_find reg)) f y.
+Definition scope_of (reg : registry) (y : name) (sc : scope) : Prop := exists fy, reg_find reg y = Some fy /\ fx_scope fy = sc.
+
+Lemma scope_level_inj : forall a b, scope_level a = scope_level b -> a = b.
+Proof. intros [] []; simpl; intros; try reflexivity; discriminate. Qed.
+
+Lemma in_scope_true : forall reg sc y, in_scope reg sc y = true <-> scope_of reg y sc.
+Proof.
+  intros reg sc y. unfold in_scope, scope_of. destruct (reg_find reg y) as [fy|].
+  - rewrite scope_eqb_eq. split; [intros H; exists fy; auto | intros [f [H1 H2]]; inversion H1; subst; reflexivity].
+  - split; [discriminate | intros [f [H1 _]]; discriminate].
+Qed.
+
+(* what get_scheduled_fixtures_for_scope returns on a validated registry *)
+Definition level_facts (reg : registry) (direct : list name) (sc : scope) (fxs : list fixture) : Prop :=
+  NoDup (map fx_name fxs) /\
+  (forall y, In y (map fx_name fxs) <-> reach reg direct y /\ scope_of reg y sc) /\
+  (forall d1 fx t1, fxs = d1 ++ fx :: t1 -> reg_find reg (fx_name fx) = Some fx /\ fx_scope fx = sc /\
+     forall y, In y (fparams fx) -> scope_of reg y sc -> In y (map fx_name d1)).
+
+Theorem level_spec : forall reg direct sc, registry_ok reg -> (forall f, In f direct -> reg_mem reg f = true) ->
+  exists fxs, get_scheduled_fixtures_for_scope reg direct sc = Ok fxs /\ level_facts reg direct sc fxs.
+Proof.
+  intros reg direct sc Hok Hdirect. unfold get_scheduled_fixtures_for_scope.
+  destruct (scheduled_names_total reg direct []) as [L HL].
+  { intros f Hf. apply Hdirect in Hf. apply reg_mem_true in Hf. destruct Hf as [fx Hfx]. exact (registry_ok_deps _ Hok _ _ Hfx). }
+  rewrite HL. simpl.
+  destruct (scheduled_names_inv reg (fun f => In f direct) direct [] L HL (sched_inv_nil _ _) (fun f Hf => Hf)) as [Hinv [_ HdL]].
+  pose proof Hinv as [HL1 [HL2 [HL3 HL4]]].
+  destruct Hok as [Hwf [Hname Hcheck]].
+  destruct (select_scope_spec reg sc L HL4 Hname) as [fxs [Hsel [Hnames Hfx]]].
+  exists fxs. split; [exact Hsel|]. split; [|split].
+  - rewrite Hnames. apply NoDup_filter. exact HL2.
+  - intros y. rewrite Hnames, filter_In, in_scope_true. split.
+    + intros [HyL Hsc]. split; [exact (HL3 y HyL) | exact Hsc].
+    + intros [[f [Hf Hfy]] Hsc]. split; [exact (sched_closure _ _ _ Hinv f y (HdL f Hf) Hfy) | exact Hsc].
+  - intros d1 fx t1 Hsplit.
+    assert (Hin : In fx fxs) by (rewrite Hsplit; apply in_or_app; right; left; reflexivity).
+    destruct (Hfx fx Hin) as [Hfind Hscope]. split; [exact Hfind|]. split; [exact Hscope|].
+    intros y Hy Hsc.
+    assert (Hmap : map fx_name fxs = map fx_name d1 ++ fx_name fx :: map fx_name t1) by (rewrite Hsplit, map_app; reflexivity).
+    rewrite Hnames in Hmap. destruct (filter_split _ _ _ _ _ Hmap) as [l1 [l2 [HLs [Hf1 _]]]].
+    rewrite <- Hf1. apply filter_In. split; [|apply in_scope_true; exact Hsc].
+    apply (HL1 _ _ _ HLs y). exists fx. auto.
+Qed.
+
+(* the parents hold (with a result) everything reachable from the direct fixtures that has a wider scope *)
+Definition covers (reg : registry) (direct : list name) (sc : scope) (parents : chain name) : Prop :=
+  forall y fy, reach reg direct y -> reg_find reg y = Some fy -> scope_level sc < scope_level (fx_scope fy) -> chain_has parents y.
+
+Theorem level_setup_ok : forall reg direct sc fxs parents, registry_ok reg -> level_facts reg direct sc fxs ->
+  full parents -> covers reg direct sc parents ->
+  exists rs, setup_all (new_level fxs :: parents) = Ok ((fxs, rs) :: parents) /\ full ((fxs, rs) :: parents).
+Proof.
+  intros reg direct sc fxs parents Hok [Hnd [Hnames Horder]] Hfull Hcov.
+  destruct (setup_all_ok fxs parents Hnd) as [rs [H1 H2]].
+  - intros d1 fx t1 Hsplit y Hy. destruct (Horder _ _ _ Hsplit) as [Hfind [Hscope Hearlier]].
+    destruct (registry_ok_edge _ Hok _ _ _ Hfind Hy) as [fy [Hfy Hle]].
+    destruct (Nat.eq_dec (scope_level (fx_scope fy)) (scope_level sc)) as [Heq|Hne].
+    + left. apply Hearlier; [exact Hy|]. exists fy. split; [exact Hfy | apply scope_level_inj; exact Heq].
+    + right. split.
+      * intros Hin. apply Hnames in Hin. destruct Hin as [_ [fy' [Hfy' Hs']]]. rewrite Hfy in Hfy'. inversion Hfy'. subst fy'.
+        apply Hne. rewrite Hs'. reflexivity.
+      * apply get_fixture_result_full; [exact Hfull|]. apply (Hcov y fy); [|exact Hfy | rewrite Hscope in Hle; lia].
+        assert (Hin : In (fx_name fx) (map fx_name fxs)) by (rewrite Hsplit, map_app; apply in_or_app; right; left; reflexivity).
+        apply Hnames in Hin. destruct Hin as [[f [Hf Hreach]] _]. exists f. split; [exact Hf|].
+        apply rt_trans with (y := fx_name fx); [exact Hreach | apply rt_step; exists fx; auto].
+  - exists rs. split; [exact H1|]. intros l [Hl|Hl]; [subst l; exact H2 | exact (Hfull l Hl)].
+Qed.
+
+(* a lookup made by user-facing code: the fixture is a direct one of the level, of this scope or wider *)
+Lemma level_lookup_ok : forall reg direct sc fxs rs parents f ff, level_facts reg direct sc fxs ->
+  full ((fxs, rs) :: parents) -> covers reg direct sc parents ->
+  In f direct -> reg_find reg f = Some ff -> scope_level sc <= scope_level (fx_scope ff) ->
+  exists v, get_fixture_result ((fxs, rs) :: parents) f = Ok v.
+Proof.
+  intros reg direct sc fxs rs parents f ff [_ [Hnames _]] Hfull Hcov Hf Hff Hle.
+  apply get_fixture_result_full; [exact Hfull|].
+  assert (Hreach : reach reg direct f) by (exists f; split; [exact Hf | apply rt_refl]).
+  destruct (Nat.eq_dec (scope_level (fx_scope ff)) (scope_level sc)) as [Heq|Hne].
+  - exists (fxs, rs). split; [left; reflexivity|]. unfold sf_names. simpl. apply Hnames. split; [exact Hreach|].
+    exists ff. split; [exact Hff | apply scope_level_inj; exact Heq].
+  - destruct (Hcov f ff Hreach Hff) as [l [Hl Hy]]; [lia|]. exists l. split; [right; exact Hl | exact Hy].
+Qed.
+
+(* ================================================================ fixtures used by suites *)
+Lemma fold_oset_In : forall {A} (g : A -> list name) l a y,
+  In y (fold_left (fun acc x => oset_update acc (g x)) l a) <-> In y a \/ exists x, In x l /\ In y (g x).
+Proof.
+  intros A g. induction l as [|x l IH]; intros a y; simpl.
+  - split; [auto | intros [H|[x [[] _]]]; exact H].
+  - rewrite IH, oset_update_In. split.
+    + intros [[H|H]|[z [Hz Hy]]]; [left; exact H | right; exists x; auto | right; exists z; auto].
+    + intros [H|[z [[Hz|Hz] Hy]]]; [left; left; exact H | subst z; left; right; exact Hy | right; exists z; auto].
+Qed.
+
+Lemma used_tests_fold_In : forall (c : test -> bool) ts a y,
+  In y (fold_left (fun acc t => if c t then oset_update acc (test_fixtures t) else acc) ts a) <->
+  In y a \/ exists t, In t ts /\ c t = true /\ In y (test_fixtures t).
+Proof.
+  intros c. induction ts as [|t ts IH]; intros a y; simpl.
+  - split; [auto | intros [H|[t [[] _]]]; exact H].
+  - rewrite IH. destruct (c t) eqn:E.
+    + rewrite oset_update_In. split.
+      * intros [[H|H]|[z [Hz Hy]]]; [left; exact H | right; exists t; auto | right; exists z; tauto].
+      * intros [H|[z [[Hz|Hz] [Hc Hy]]]]; [left; left; exact H | subst z; left; right; exact Hy | right; exists z; auto].
+    + split.
+      * intros [H|[z [Hz Hy]]]; [left; exact H | right; exists z; tauto].
+      * intros [H|[z [[Hz|Hz] [Hc Hy]]]]; [left; exact H | subst z; congruence | right; exists z; auto].
+Qed.
+
+Lemma used_in_suite_In : forall inh s incl y, In y (get_fixtures_used_in_suite inh s incl) <->
+  (has_enabled_tests inh s || incl = true) /\
+  (In y (suite_fixtures s) \/ exists t, In t (su_tests s) /\ (test_enabled (inh || su_disabled s) t || incl = true) /\ In y (test_fixtures t)).
+Proof.
+  intros inh s incl y. unfold get_fixtures_used_in_suite.
+  destruct (has_enabled_tests inh s) eqn:E1; destruct incl eqn:E2; simpl;
+    try (rewrite used_tests_fold_In; split; [intros H; split; [reflexivity | exact H] | intros [_ H]; exact H]).
+  split; [intros [] | intros [H _]; discriminate].
+Qed.
+
+Lemma used_rec_unfold : forall inh n d h i ts subs incl,
+  get_fixtures_used_in_suite_recursively inh (Suite n d h i ts subs) incl =
+  fold_left (fun acc sub => oset_update acc (get_fixtures_used_in_suite_recursively (inh || d) sub incl)) subs
+            (get_fixtures_used_in_suite inh (Suite n d h i ts subs) incl).
+Proof. reflexivity. Qed.
+
+Lemma used_rec_self : forall inh s incl y, In y (get_fixtures_used_in_suite inh s incl) -> In y (get_fixtures_used_in_suite_recursively inh s incl).
+Proof. intros inh [n d h i ts subs] incl y H. rewrite used_rec_unfold. apply fold_oset_In. left. exact H. Qed.
+
+Lemma used_rec_sub : forall inh s incl sub y, In sub (su_subs s) ->
+  In y (get_fixtures_used_in_suite_recursively (inh || su_disabled s) sub incl) -> In y (get_fixtures_used_in_suite_recursively inh s incl).
+Proof. intros inh [n d h i ts subs] incl sub y Hsub H. rewrite used_rec_unfold. apply fold_oset_In. right. exists sub. auto. Qed.
+
+Lemma used_rec_upper : forall s inh incl y, In y (get_fixtures_used_in_suite_recursively inh s incl) ->
+  exists s', In s' (flatten_suite s) /\ (In y (suite_fixtures s') \/ exists t, In t (su_tests s') /\ In y (test_fixtures t)).
+Proof.
+  induction s as [n d h i ts subs IH] using suite_ind2. intros inh incl y. rewrite used_rec_unfold. rewrite fold_oset_In.
+  intros [H|[sub [Hsub H]]].
+  - apply used_in_suite_In in H. destruct H as [_ [H|[t [Ht [_ Hy]]]]].
+    + exists (Suite n d h i ts subs). split; [left; reflexivity | left; exact H].
+    + exists (Suite n d h i ts subs). split; [left; reflexivity | right; exists t; auto].
+  - destruct (IH sub Hsub _ _ _ H) as [s' [Hs' Hor]]. exists s'. split; [|exact Hor]. simpl. right. apply in_flat_map. exists sub. auto.
+Qed.
+
+Lemma used_suites_In : forall suites incl y, In y (fixtures_used_in_suites suites incl) <->
+  exists s, In s suites /\ In y (get_fixtures_used_in_suite_recursively false s incl).
+Proof.
+  intros suites incl y. unfold fixtures_used_in_suites. rewrite fold_oset_In. split; [intros [[]|H]; exact H | intros H; right; exact H].
+Qed.
+
+(* every fixture used by scheduled suites and tests is registered once check_fixtures_in_suites passed *)
+Lemma suite_uses_registered : forall reg s, suite_uses_ok reg s ->
+  (forall f, In f (suite_fixtures s) -> exists fx, reg_find reg f = Some fx /\ scope_level ScSuite <= scope_level (fx_scope fx)) /\
+  (forall t f, In t (su_tests s) -> In f (test_fixtures t) -> reg_mem reg f = true).
+Proof.
+  intros reg s [H1 H2]. split.
+  - intros f Hf. destruct (check_suite_fixture_ok _ _ (proj1 (for_each_ok _ _) H1 f Hf)) as [fx [Hfx [_ Hl]]]. exists fx. auto.
+  - intros t f Ht Hf. exact (proj1 (check_fixtures_in_test_ok reg t) (proj1 (for_each_ok _ _) H2 t Ht) f Hf).
+Qed.
+
+Lemma reach_incl : forall reg d1 d2 y, (forall f, In f d1 -> In f d2) -> reach reg d1 y -> reach reg d2 y.
+Proof. intros reg d1 d2 y H [f [Hf Hr]]. exists f. auto. Qed.
+
+(* ================================================================ the dry run never fails on a validated project *)
+Section DryRun.
+  Variable reg : registry.
+  Variable fd : bool.                      (* force_disabled = include_disabled *)
+  Variable D0 : list name.                 (* the direct fixtures of the pre_run and session schedules *)
+  Variables pre ses : list fixture.
+  Variables rs_pre rs_ses : list (name * name).
+  Hypothesis Hok : registry_ok reg.
+  Hypothesis Hpre : level_facts reg D0 ScPreRun pre.
+  Hypothesis Hses : level_facts reg D0 ScSession ses.
+  Hypothesis Hfull1 : full [(ses, rs_ses); (pre, rs_pre)].
+
+  Let c1 : chain name := [(ses, rs_ses); (pre, rs_pre)].
+
+  Lemma scope_cases : forall sc, sc = ScTest \/ sc = ScSuite \/ sc = ScSession \/ sc = ScPreRun.
+  Proof. intros []; auto. Qed.
+
+  Lemma covers_c1 : forall direct, (forall f, In f direct -> In f D0) -> covers reg direct ScSuite c1.
+  Proof.
+    intros direct Hsub y fy Hreach Hfy Hlt. apply (reach_incl _ _ _ _ Hsub) in Hreach.
+    destruct (scope_cases (fx_scope fy)) as [Hs|[Hs|[Hs|Hs]]]; rewrite Hs in Hlt; simpl in Hlt; try lia.
+    - exists (ses, rs_ses). split; [left; reflexivity|]. unfold sf_names. simpl. destruct Hses as [_ [Hn _]]. apply Hn.
+      split; [exact Hreach | exists fy; auto].
+    - exists (pre, rs_pre). split; [right; left; reflexivity|]. unfold sf_names. simpl. destruct Hpre as [_ [Hn _]]. apply Hn.
+      split; [exact Hreach | exists fy; auto].
+  Qed.
+
+  Lemma dry_run_test_ok : forall direct_s fxs_s rs_s t,
+    level_facts reg direct_s ScSuite fxs_s -> full ((fxs_s, rs_s) :: c1) ->
+    (forall f, In f direct_s -> In f D0) ->
+    (forall f, In f (test_fixtures t) -> In f direct_s) ->
+    (forall f, In f (test_fixtures t) -> reg_mem reg f = true) ->
+    dry_run_test reg ((fxs_s, rs_s) :: c1) t = Ok tt.
+  Proof.
+    intros direct_s fxs_s rs_s t Hs Hfull HsD Htd Htreg. unfold dry_run_test, get_fixtures_scheduled_for_test.
+    destruct (level_spec reg (test_fixtures t) ScTest Hok Htreg) as [fxs [Hsched Hfacts]]. rewrite Hsched. cbn [bind].
+    assert (Hcov : covers reg (test_fixtures t) ScTest ((fxs_s, rs_s) :: c1)).
+    { intros y fy Hreach Hfy Hlt.
+      destruct (scope_cases (fx_scope fy)) as [Hsc|[Hsc|Hsc]].
+      - rewrite Hsc in Hlt. simpl in Hlt. lia.
+      - exists (fxs_s, rs_s). split; [left; reflexivity|]. unfold sf_names. simpl. destruct Hs as [_ [Hn _]]. apply Hn.
+        split; [exact (reach_incl _ _ _ _ Htd Hreach) | exists fy; auto].
+      - assert (Hlt' : scope_level ScSuite < scope_level (fx_scope fy)) by (destruct Hsc as [Hsc|Hsc]; rewrite Hsc; simpl; lia).
+        destruct (covers_c1 direct_s HsD y fy (reach_incl _ _ _ _ Htd Hreach) Hfy Hlt') as [l [Hl Hy]].
+        exists l. split; [right; exact Hl | exact Hy]. }
+    destruct (level_setup_ok _ _ _ _ _ Hok Hfacts Hfull Hcov) as [rs [Hsetup Hfull']]. rewrite Hsetup. cbn [bind].
+    destruct (get_fixture_results_ok ((fxs, rs) :: (fxs_s, rs_s) :: c1) (test_fixtures t)) as [l Hl].
+    - intros f Hf. pose proof (Htreg f Hf) as Hm. apply reg_mem_true in Hm. destruct Hm as [ff Hff].
+      apply (level_lookup_ok reg (test_fixtures t) ScTest fxs rs _ f ff Hfacts Hfull' Hcov Hf Hff).
+      destruct (fx_scope ff); simpl; lia.
+    - rewrite Hl. reflexivity.
+  Qed.
+
+  Lemma has_enabled_false : forall inh s t, has_enabled_tests inh s = false -> In t (su_tests s) -> test_enabled (inh || su_disabled s) t = false.
+  Proof.
+    intros inh s t H Ht. unfold has_enabled_tests in H. destruct (test_enabled (inh || su_disabled s) t) eqn:E; [|reflexivity].
+    assert (existsb (test_enabled (inh || su_disabled s)) (su_tests s) = true) by (apply existsb_exists; exists t; auto). congruence.
+  Qed.
+
+  Lemma dry_run_suite_ok : forall s inh,
+    (forall s', In s' (flatten_suite s) -> suite_uses_ok reg s') ->
+    (forall f, In f (get_fixtures_used_in_suite_recursively inh s fd) -> In f D0) ->
+    dry_run_suite reg fd c1 inh s = Ok tt.
+  Proof.
+    induction s as [n d hk inj ts subs IH] using suite_ind2. intros inh Huses HD0.
+    set (s := Suite n d hk inj ts subs) in *.
+    assert (Hself : suite_uses_ok reg s) by (apply Huses; left; reflexivity).
+    destruct (suite_uses_registered _ _ Hself) as [Hsfx Htfx].
+    set (direct_s := get_fixtures_used_in_suite inh s fd).
+    assert (HsD : forall f, In f direct_s -> In f D0) by (intros f Hf; apply HD0; apply used_rec_self; exact Hf).
+    assert (Hdreg : forall f, In f direct_s -> reg_mem reg f = true).
+    { intros f Hf. apply used_in_suite_In in Hf. destruct Hf as [_ [Hf|[t [Ht [_ Hf]]]]].
+      - destruct (Hsfx f Hf) as [fx [Hfx _]]. apply reg_mem_true. exists fx. exact Hfx.
+      - exact (Htfx t f Ht Hf). }
+    destruct (level_spec reg direct_s ScSuite Hok Hdreg) as [fxs [Hsched Hfacts]].
+    change (dry_run_suite reg fd c1 inh s) with
+      (bind (get_fixtures_scheduled_for_suite reg inh s fd) (fun fxs =>
+       bind (if has_enabled_tests inh s || fd then
+               bind (setup_all (new_level fxs :: c1)) (fun c =>
+               bind (get_fixture_results c (oset_update [] inj)) (fun _ =>
+               bind (get_fixture_results c (match h_setup_suite hk with Some (args, _) => args | None => [] end)) (fun _ =>
+               Ok c)))
+             else Ok (new_level fxs :: c1)) (fun c =>
+       bind (for_each (fun t => if test_enabled (inh || d) t || fd then dry_run_test reg c t else Ok tt) ts) (fun _ =>
+       for_each (dry_run_suite reg fd c1 (inh || d)) subs)))).
+    unfold get_fixtures_scheduled_for_suite. fold direct_s. rewrite Hsched. cbn [bind].
+    assert (Hsubs : for_each (dry_run_suite reg fd c1 (inh || d)) subs = Ok tt).
+    { apply for_each_ok. intros sub Hsub. apply (IH sub Hsub).
+      - intros s' Hs'. apply Huses. simpl. right. apply in_flat_map. exists sub. auto.
+      - intros f Hf. apply HD0. apply (used_rec_sub inh s fd sub f Hsub). exact Hf. }
+    destruct (has_enabled_tests inh s || fd) eqn:Hen.
+    - destruct (level_setup_ok _ _ _ _ _ Hok Hfacts Hfull1 (covers_c1 direct_s HsD)) as [rs [Hsetup Hfull']].
+      fold c1 in Hsetup. rewrite Hsetup. cbn [bind].
+      assert (Hlook : forall f, In f (suite_fixtures s) -> exists v, get_fixture_result ((fxs, rs) :: c1) f = Ok v).
+      { intros f Hf. destruct (Hsfx f Hf) as [ff [Hff Hl]].
+        apply (level_lookup_ok reg direct_s ScSuite fxs rs c1 f ff Hfacts Hfull' (covers_c1 direct_s HsD)); [|exact Hff | exact Hl].
+        apply used_in_suite_In. split; [exact Hen | left; exact Hf]. }
+      destruct (get_fixture_results_ok ((fxs, rs) :: c1) (oset_update [] inj)) as [l1 Hl1].
+      { intros f Hf. apply Hlook. unfold suite_fixtures. simpl. apply oset_update_In. left. exact Hf. }
+      rewrite Hl1. cbn [bind].
+      destruct (get_fixture_results_ok ((fxs, rs) :: c1) (match h_setup_suite hk with Some (args, _) => args | None => [] end)) as [l2 Hl2].
+      { intros f Hf. apply Hlook. unfold suite_fixtures. simpl. apply oset_update_In. right. exact Hf. }
+      rewrite Hl2. cbn [bind].
+      assert (Htests : for_each (fun t => if test_enabled (inh || d) t || fd then dry_run_test reg ((fxs, rs) :: c1) t else Ok tt) ts = Ok tt).
+      { apply for_each_ok. intros t Ht. destruct (test_enabled (inh || d) t || fd) eqn:Het; [|reflexivity].
+        apply (dry_run_test_ok direct_s fxs rs t Hfacts Hfull' HsD).
+        - intros f Hf. apply used_in_suite_In. split; [exact Hen|]. right. exists t. auto.
+        - intros f Hf. exact (Htfx t f Ht Hf). }
+      rewrite Htests. cbn [bind]. exact Hsubs.
+    - cbn [bind].
+      assert (Htests : for_each (fun t => if test_enabled (inh || d) t || fd then dry_run_test reg (new_level fxs :: c1) t else Ok tt) ts = Ok tt).
+      { apply for_each_ok. intros t Ht. apply orb_false_iff in Hen. destruct Hen as [Hen1 Hen2].
+        pose proof (has_enabled_false inh s t Hen1 Ht) as Hdis. simpl in Hdis. rewrite Hdis, Hen2. reflexivity. }
+      rewrite Htests. cbn [bind]. exact Hsubs.
+  Qed.
+End DryRun.
+
+Lemma bind_ok : forall {A B} (r : result A) (f : A -> result B) a, r = Ok a -> bind r f = f a.
+Proof. intros A B r f a H. rewrite H. reflexivity. Qed.
+
+Theorem dry_run_ok : forall reg suites, registry_ok reg -> check_fixtures_in_suites reg suites = Ok tt ->
+  forall fd, dry_run reg suites fd = Ok tt.
+Proof.
+  intros reg suites Hok Hcheck fd. pose proof (proj1 (check_fixtures_in_suites_ok reg suites) Hcheck) as Huses.
+  set (D0 := fixtures_used_in_suites suites fd).
+  assert (HD0reg : forall f, In f D0 -> reg_mem reg f = true).
+  { intros f Hf. apply used_suites_In in Hf. destruct Hf as [s [Hs Hf]].
+    destruct (used_rec_upper _ _ _ _ Hf) as [s' [Hs' Hor]].
+    assert (Hfl : In s' (flatten_suites suites)) by (apply flatten_suites_In; exists s; auto).
+    destruct (suite_uses_registered _ _ (Huses s' Hfl)) as [H1 H2].
+    destruct Hor as [Hsf|[t [Ht Htf]]].
+    - destruct (H1 f Hsf) as [fx [Hfx _]]. apply reg_mem_true. exists fx. exact Hfx.
+    - exact (H2 t f Ht Htf). }
+  unfold dry_run, get_fixtures_scheduled_for_pre_run, get_fixtures_scheduled_for_session. fold D0.
+  destruct (level_spec reg D0 ScPreRun Hok HD0reg) as [pre [Hpre_s Hpre]]. rewrite Hpre_s. cbn [bind].
+  destruct (level_setup_ok reg D0 ScPreRun pre [] Hok Hpre) as [rs_pre [Hsetup0 Hfull0]].
+  { intros l []. }
+  { intros y fy _ _ Hlt. destruct (fx_scope fy); simpl in Hlt; lia. }
+  rewrite Hsetup0. cbn [bind].
+  destruct (level_spec reg D0 ScSession Hok HD0reg) as [ses [Hses_s Hses]]. rewrite Hses_s. cbn [bind].
+  destruct (level_setup_ok reg D0 ScSession ses [(pre, rs_pre)] Hok Hses Hfull0) as [rs_ses [Hsetup1 Hfull1]].
+  { intros y fy Hreach Hfy Hlt. exists (pre, rs_pre). split; [left; reflexivity|]. unfold sf_names. simpl.
+    destruct Hpre as [_ [Hn _]]. apply Hn. split; [exact Hreach|]. exists fy. split; [exact Hfy|].
+    destruct (fx_scope fy); simpl in Hlt; try lia. reflexivity. }
+  rewrite (bind_ok _ _ _ Hsetup1).
+  apply for_each_ok. intros s Hs.
+  apply (dry_run_suite_ok reg fd D0 pre ses rs_pre rs_ses Hok Hpre Hses Hfull1).
+  - intros s' Hs'. apply Huses. apply flatten_suites_In. exists s. auto.
+  - intros f Hf. apply used_suites_In. exists s. auto.
+Qed.
